@@ -224,12 +224,11 @@ Qed.
 Lemma auto_index_lease c : c_lease (auto_index c) = node_free.
 Proof. reflexivity. Qed.
 
-Lemma create_free_ext host s chs o s' er out :
-  Inv s -> is_Some (s_eng s !! host) -> Forall (fun c => c_lease c = node_free) chs ->
-  create_free true host s chs o = (s', er, out) -> ext s s'.
+Lemma create_free_body_ext host s chs o s' er out :
+  Inv s -> is_Some (s_eng s !! host) -> (forall c, c ∈ chs -> c_lkey c = 0 -> c_lease c = node_free) ->
+  create_free_body true host s chs o = (s', er, out) -> ext s s'.
 Proof.
-  intros I Hn Hall. unfold create_free. cbv zeta.
-  destruct (negb (names_required chs)); [intros [= <- <- <-]; apply ext_refl|].
+  intros I Hn Hall. unfold create_free_body. cbv zeta.
   destruct (if o_over o then _ else _) as [[s1 er1] chs1] eqn:E1.
   assert (X1 : ext s s1 /\ forall c, c ∈ chs1 -> c ∈ chs \/ exists k, s_tab s !! k = Some c).
   { destruct (o_over o); [eapply delete_overwritten_ext; eassumption|].
@@ -262,7 +261,7 @@ Proof.
     split; [|split; assumption]. rewrite Hl.
     unfold chs1b in Hc0. apply elem_of_app in Hc0 as [Hc0|Hc0].
     - destruct (Hmem c0 Hc0) as [Hin0|(k & Hk)].
-      + rewrite Forall_forall in Hall. apply Hall, Hin0.
+      + apply Hall; assumption.
       + destruct (inv_tab _ I k c0 Hk) as (_ & _ & Hpos & _). lia.
     - apply elem_of_list_fmap in Hc0 as (x & -> & _). reflexivity. }
   match goal with |- context [foldl ?f ?a created] => set (chs3 := foldl f a created) end.
@@ -284,6 +283,75 @@ Proof.
         rewrite Hkey. unfold chan_key. unfold kf in Hkf. injection Hkf as -> ->. reflexivity.
     - intros n k Hk. exact Hk. }
   destruct (negb (is_ok er3)); intros [= <- <- <-]; (eapply ext_trans; [exact X1|exact Hfinal]).
+Qed.
+
+(* the update-by-key step only rewrites rows in place (same key, same leaseholder and local key) *)
+Lemma update_row_kf c ic : kf (update_row c ic) = kf c.
+Proof. unfold update_row. destruct (is_calc c && is_calc ic); destruct c; reflexivity. Qed.
+
+Lemma update_existing_ext s chs retr s0 chs0 :
+  update_existing s chs retr = (s0, chs0) ->
+  ext s s0 /\ (forall c, c ∈ chs0 -> c ∈ chs \/ exists k, s_tab s !! k = Some c) /\ length chs0 = length chs.
+Proof.
+  unfold update_existing.
+  set (keys := chan_key <$> chs). set (ex := filter (fun k => negb (k =? 0)) keys).
+  assert (G : forall l s1 chs1,
+     (ext s s1 /\ tab_sub (s_tab s1) (s_tab s) /\ s_eng s1 = s_eng s /\ s_ctr s1 = s_ctr s /\ s_free s1 = s_free s) ->
+     (forall c, c ∈ chs1 -> c ∈ chs \/ exists k, s_tab s !! k = Some c) -> length chs1 = length chs ->
+     forall s2 chs2,
+     foldl (fun '(s', chs') k =>
+              match s_tab s !! k, index_where (N.eqb k) keys with
+              | Some c, Some i =>
+                  match chs !! i with
+                  | Some ic => if retr then (s', <[i := c]> chs')
+                               else (upd_tab s' (<[k := update_row c ic]> (s_tab s')), chs')
+                  | None => (s', chs')
+                  end
+              | _, _ => (s', chs')
+              end) (s1, chs1) l = (s2, chs2) ->
+     ext s s2 /\ (forall c, c ∈ chs2 -> c ∈ chs \/ exists k, s_tab s !! k = Some c) /\ length chs2 = length chs).
+  { induction l as [|k l IH]; intros s1 chs1 Hs Hm Hl s2 chs2; cbn [foldl].
+    - intros [= <- <-]. destruct Hs as [Hs _]. auto.
+    - destruct (s_tab s !! k) as [c|] eqn:Ek; [|apply IH; assumption].
+      destruct (index_where (N.eqb k) keys) as [i|]; [|apply IH; assumption].
+      destruct (chs !! i) as [ic|]; [|apply IH; assumption].
+      destruct retr.
+      + apply IH; [assumption| |rewrite insert_length; assumption].
+        intros x Hx. apply elem_of_list_lookup in Hx as (j & Hj).
+        destruct (decide (j = i)) as [->|Hne].
+        * destruct (decide (i < length chs1)%nat) as [Hlt|Hge].
+          -- rewrite list_lookup_insert in Hj by exact Hlt. injection Hj as <-. right. eauto.
+          -- rewrite list_insert_ge in Hj by lia. apply Hm. eapply elem_of_list_lookup_2; eassumption.
+        * rewrite list_lookup_insert_ne in Hj by congruence. apply Hm. eapply elem_of_list_lookup_2; eassumption.
+      + apply IH; [|assumption|assumption].
+        destruct Hs as (_ & Hsub & He & Hc & Hf).
+        assert (Hsub' : tab_sub (<[k:=update_row c ic]> (s_tab s1)) (s_tab s)).
+        { intros x y Hx. destruct (decide (x = k)) as [->|Hne].
+          - rewrite lookup_insert in Hx. injection Hx as <-. exists c. split; [exact Ek|].
+            symmetry. apply update_row_kf.
+          - rewrite lookup_insert_ne in Hx by congruence. apply Hsub, Hx. }
+        split; [|repeat split; assumption].
+        apply ext_same; cbn [upd_tab s_tab s_eng s_ctr s_free]; try assumption.
+        * rewrite He. tauto.
+        * intros n x Hx. unfold eng_of in *. cbn [upd_tab s_eng] in Hx. rewrite He in Hx. exact Hx. }
+  destruct ex as [|e0 ex'] eqn:Eex; [intros [= <- <-]; split; [apply ext_refl|auto]|].
+  destruct (forallb _ (e0 :: ex')); [|intros [= <- <-]; split; [apply ext_refl|auto]].
+  apply G; auto. split; [apply ext_refl|]. split; [apply tab_sub_refl|auto].
+Qed.
+
+Lemma create_free_ext host s chs o s' er out :
+  Inv s -> is_Some (s_eng s !! host) -> Forall (fun c => c_lease c = node_free) chs ->
+  create_free true host s chs o = (s', er, out) -> ext s s'.
+Proof.
+  intros I Hn Hall. unfold create_free.
+  destruct (negb (names_required chs)); [intros [= <- <- <-]; apply ext_refl|].
+  destruct (update_existing s chs (o_retr o)) as [s0 chs0] eqn:E0.
+  destruct (update_existing_ext _ _ _ _ _ E0) as (X0 & Hm0 & _). intros H.
+  eapply ext_trans; [exact X0|].
+  eapply create_free_body_ext; [eapply Inv_ext; eassumption|apply (ext_nodes _ _ X0), Hn| |exact H].
+  intros c Hc Hz. destruct (Hm0 c Hc) as [Hin|(k & Hk)].
+  - rewrite Forall_forall in Hall. apply Hall, Hin.
+  - destruct (inv_tab _ I k c Hk) as (_ & _ & Hpos & _). lia.
 Qed.
 
 (* ---- create as a whole *)
